@@ -53,6 +53,12 @@ type mode struct {
 	Resend bool
 }
 
+// entriesKind: the sync is made through one of the entries entry points
+// (SyncEntries, SyncHAMTEntries, SyncOneEntry).
+func (m mode) entriesKind() bool {
+	return m.Kind == "entries" || m.Kind == "hamt-entries" || m.Kind == "one-entry"
+}
+
 func (m mode) String() string {
 	s := fmt.Sprintf("disc=%v,addrs2=%v,%s,seg=%d,presync=%v,L=%d", m.Discovery, m.TwoAddrs, m.Kind, m.Seg, m.Presync, m.L)
 	if m.Mount != "" {
@@ -130,6 +136,12 @@ func newRunner(m mode) *runner {
 		p.AddHost("pub0b.test:80")
 	}
 	ch := syncfx.BuildAdChain(p.Src, id, m.L, syncfx.DefaultProto, "c04")
+	if m.entriesKind() {
+		// the entries entry points sync a chain of entry chunks, named by the
+		// CID of its first chunk (no head query, no latest-synced value, no
+		// notification)
+		ch = syncfx.BuildEntryChain(p.Src, m.L, syncfx.DefaultProto, "c04-entries")
+	}
 	opts := []dagsync.Option{dagsync.SegmentDepthLimit(m.Seg)}
 	if m.Retry {
 		opts = append(opts, dagsync.RetryableHTTPClient(1, time.Millisecond, 2*time.Millisecond))
@@ -267,6 +279,12 @@ func (rn *runner) attempt(h int, faults []fault) (res result) {
 			}
 		case "explicit":
 			_, res.err = w.Sub.SyncAdChain(ctx, info, dagsync.WithHeadAdCid(ch.Cids[h]))
+		case "entries":
+			res.err = w.Sub.SyncEntries(ctx, info, ch.Cids[h])
+		case "hamt-entries":
+			res.err = w.Sub.SyncHAMTEntries(ctx, info, ch.Cids[h])
+		case "one-entry":
+			res.err = w.Sub.SyncOneEntry(ctx, info, ch.Cids[h])
 		default:
 			_, res.err = w.Sub.SyncAdChain(ctx, info)
 		}
@@ -314,7 +332,7 @@ func ints(l []int) string { return strings.Trim(fmt.Sprint(l), "[]") }
 
 func TestCheck(t *testing.T) {
 	r := vp.New("C04", "fault_enumeration",
-		"modes: {libp2p-HTTP discovery, plain HTTP, plain HTTP served under a URL path prefix and named by an http-path address} x {plain / retrying HTTP client (RetryableHTTPClient, one retry)} x {announcements also to a subscriber with a gossipsub topic whose receiver republishes them (WithResend)} x {1, 2 addresses} x {explicit sync with queried head, with explicit head, announce-triggered} x {unsegmented, segment size 1, 2} x {nothing synced before, part of the chain synced before} on a chain of L advertisements. For each mode a fault-free reference run fixes the request positions; then every fault kind (HTTP 400/403/404/500/503, connection closed, declared length longer than body, corrupt body, substituted body, empty body, stalled response, caller cancellation during a request, hook failure per block in segmented mode (FailSync alone, FailSync followed by SetNextSyncCid(cid.Undef), and an error returned by the callback of the library's MakeGeneralBlockHook), caller cancellation from inside each block-hook call i.e. between requests and between segments, an address for which no client can be created) at every position, singly, in pairs over a reduced kind set (quick: 404 / 403 / 500 / connection closed / unusable address) and over the larger kind set (thorough), within one attempt and across attempt and retry, each followed by a fault-free retry on the same subscriber. Non-trivial: every faulted run. Distinct = distinct (mode, fault script).",
+		"modes: {libp2p-HTTP discovery, plain HTTP, plain HTTP served under a URL path prefix and named by an http-path address} x {plain / retrying HTTP client (RetryableHTTPClient, one retry)} x {announcements also to a subscriber with a gossipsub topic whose receiver republishes them (WithResend)} x {1, 2 addresses} x {explicit sync with queried head, with explicit head, announce-triggered; entries chains through SyncEntries, SyncHAMTEntries and SyncOneEntry} x {unsegmented, segment size 1, 2} x {nothing synced before, part of the chain synced before} on a chain of L advertisements. For each mode a fault-free reference run fixes the request positions; then every fault kind (HTTP 400/403/404/500/503, connection closed, declared length longer than body, corrupt body, substituted body, empty body, stalled response, caller cancellation during a request, hook failure per block in segmented mode (FailSync alone, FailSync followed by SetNextSyncCid(cid.Undef), and an error returned by the callback of the library's MakeGeneralBlockHook), caller cancellation from inside each block-hook call i.e. between requests and between segments, an address for which no client can be created) at every position, singly, in pairs over a reduced kind set (quick: 404 / 403 / 500 / connection closed / unusable address) and over the larger kind set (thorough), within one attempt and across attempt and retry, each followed by a fault-free retry on the same subscriber. Non-trivial: every faulted run. Distinct = distinct (mode, fault script).",
 		"stalled responses and time-outs run in virtual time inside a synctest bubble; the horizon for 'no event will come' is 30 virtual minutes",
 		"a fault that the client masks (address fail-over, legacy path fallback) must leave all observations equal to the fault-free reference",
 		"the stream-reset retry branch needs a libp2p stream transport and is not driven",
@@ -348,6 +366,22 @@ func TestCheck(t *testing.T) {
 	for _, disc := range []bool{true, false} {
 		for _, kind := range []string{"queried", "announce"} {
 			modes = append(modes, mode{Discovery: disc, Kind: kind, Seg: -1, L: L, Retry: true})
+		}
+	}
+	// the entries entry points: a chain of entry chunks synced from its first
+	// chunk (all chunks, all links, one chunk)
+	for _, disc := range []bool{true, false} {
+		for _, kind := range []string{"entries", "hamt-entries", "one-entry"} {
+			for _, seg := range []int64{-1, 1} {
+				if kind != "entries" && seg > 0 {
+					// only SyncEntries syncs in segments; the all-links and
+					// the one-chunk entry points never do (they pass -1), so
+					// there is no segment at whose end a hook failure could
+					// take effect
+					continue
+				}
+				modes = append(modes, mode{Discovery: disc, Kind: kind, Seg: seg, L: L + 1})
+			}
 		}
 	}
 	// announcements handed to a subscriber whose receiver republishes them on
@@ -623,7 +657,7 @@ func oneScript(t *testing.T, r *vp.Recorder, m mode, ref result, s1, s2 []fault)
 		}
 		done := !res1.failed
 		before = res1.latest // the state the next attempt starts from
-		alreadySynced = done && m.Kind != "explicit"
+		alreadySynced = done && m.Kind != "explicit" && !m.entriesKind()
 		if len(s2) != 0 {
 			res2 := rn.attempt(head, s2)
 			injected = s2
@@ -642,7 +676,7 @@ func oneScript(t *testing.T, r *vp.Recorder, m mode, ref result, s1, s2 []fault)
 			report("panic", "retry: "+firstLine(resN.panicked))
 			return
 		}
-		if done && m.Kind != "explicit" {
+		if done && m.Kind != "explicit" && !m.entriesKind() {
 			// a faulted attempt was masked and already synced the head: the
 			// retry has nothing left to do; only the final state counts
 			if len(resN.audit) != 0 {
